@@ -51,6 +51,7 @@ pub fn run(ctx: &mut Ctx, suite: &str) {
         "c13e" => c12::run_shutdown_emfile(ctx),
         "c13p" => c12::run_permit(ctx),
         "c13w" => c12::run_c13w(ctx),
+        "c13f" => c12::run_c13f(ctx),
         "c01k" => c12::run_c01k(ctx),
         "c13b" => c12::run_shutdown_busy(ctx),
         "c12i" => c12::run_emfile_idle(ctx),
